@@ -1464,6 +1464,17 @@ def parse_unittest(test):
     return testSuite, testName, testClassName
 
 
+# Characters which XML 1.0 does not allow in a document, not even as
+# character references.
+_ILLEGAL_XML_CHARS = re.compile(
+    '[^\t\n\r\x20-\ud7ff\ue000-\ufffd\U00010000-\U0010ffff]')
+
+
+def xml_safe(text):
+    """Replace the characters that cannot occur in an XML document."""
+    return _ILLEGAL_XML_CHARS.sub('\ufffd', text)
+
+
 class XMLOutputFormattingWrapper:
     """Output formatter which delegates to another formatter for all
     operations, but also prepares an element tree of test output.
@@ -1571,8 +1582,8 @@ class XMLOutputFormattingWrapper:
                 testCaseNode = ElementTree.Element('testcase')
                 testSuiteNode.append(testCaseNode)
 
-                testCaseNode.set('classname', testCase.testClassName)
-                testCaseNode.set('name', testCase.testName)
+                testCaseNode.set('classname', xml_safe(testCase.testClassName))
+                testCaseNode.set('name', xml_safe(testCase.testName))
                 testCaseNode.set('time', str(testCase.time))
 
                 if testCase.error:
@@ -1586,9 +1597,10 @@ class XMLOutputFormattingWrapper:
                     finally:  # Avoids a memory leak
                         del tb
 
+                    errorMessage = xml_safe(errorMessage)
                     errorNode.set('message', errorMessage.split('\n')[0])
-                    errorNode.set('type', str(excType))
-                    text = (errorMessage + '\n\n' + stackTrace)
+                    errorNode.set('type', xml_safe(str(excType)))
+                    text = (errorMessage + '\n\n' + xml_safe(stackTrace))
                     errorNode.text = text
 
                 if testCase.failure:
@@ -1607,9 +1619,10 @@ class XMLOutputFormattingWrapper:
                     finally:  # Avoids a memory leak
                         del tb
 
+                    errorMessage = xml_safe(errorMessage)
                     failureNode.set('message', errorMessage.split('\n')[0])
-                    failureNode.set('type', str(excType))
-                    text = f'{errorMessage}\n\n{stackTrace}'
+                    failureNode.set('type', xml_safe(str(excType)))
+                    text = f'{errorMessage}\n\n{xml_safe(stackTrace)}'
                     failureNode.text = text
 
             # We don't have a good way to capture these yet, so they are empty:
